@@ -368,6 +368,7 @@ example : ClockOk 0 (⟨[], exClients⟩ : Seq 2) [0, 1, 0] := by
   simp [ClockOk, exClients, seqStepWith, Cc.setT]
 
 /-- the execution hypothesis is inhabited for every start (the empty execution; every `Cc.Step` extends it) -/
-example : Cc.Exec view (⟨Db.get ([] : Db), fun i => .idle (exClients i)⟩ : Cc.Conc Bytes (Option Entry) Client 2) [] _ := Cc.Exec.refl _
+example : let c₀ : Cc.Conc Bytes (Option Entry) Client 2 := ⟨Db.get ([] : Db), fun i => .idle (exClients i)⟩
+    Cc.Exec view c₀ [] c₀ := Cc.Exec.refl _
 
 end Exec
